@@ -17,7 +17,7 @@ use std::time::Duration;
 pub static INFO: PropInfo = PropInfo {
     id: "C20",
     level: "exploration",
-    rule: "one evaluation = one session of the real NetcodeServerTransport and 1-5 NetcodeClientTransports over 127.0.0.1 UDP sockets, single-threaded with virtual durations, through an in-path relay (one front socket the clients believe is the server, one back socket per client) that applies a seeded schedule to the real datagrams: drop, duplicate, delay / reorder, replay of old datagrams, bit corruption; applications submit messages on all three channel kinds both ways, disconnect from either side / either layer at seeded ticks, and reconnect with the same client id; secure and unsecure authentication; in a third of the secure runs the connect tokens live 2-8 s only, so sessions outlive the token they were established with (a client whose token ran out before it connected is owed nothing). Oracles: right after every NetcodeServerTransport::update the server has no disconnected-but-present connection, the message layer's connected ids equal the ids the transport has an address for, and both counts agree; ServerEvents per id alternate Connected/Disconnected starting with Connected; every application- or peer-initiated disconnect is visible on the other side within timeout + 1 s of virtual time; every obtained message is a byte-identical submission of the same client / channel, in order on ordered channels and at most once on reliable ones; in interference-only runs (every timeout window sees a genuine datagram delivered each way) no session ends unless an application asked for it; every datagram seen by the relay is <= 1400 bytes. Non-trivial = the relay interfered (drop/dup/delay/replay/corrupt) AND at least one client connected AND at least one disconnect was propagated; distinct = fingerprints of the session history (connects, disconnects, message counts). In a fifth of the hostile runs one client is HASTY: the relay holds its Response datagrams back, its application disconnects as soon as one has left, and the relay releases the responses together with the Disconnect datagram - the server sees the completed handshake and its end within one transport update and must report ClientConnected before ClientDisconnected. In half of the clean-relay runs one client (with an id of its own) is MUTED: the relay drops every server-to-client session datagram for it, so the server holds its session while the client is still answering the challenge; its application then disconnects (client or transport API) and the server side must be gone within 6 ticks. A quarter of the runs end their fault phase with a SERVER SHUTDOWN: 0-2 message-layer kicks (RenetServer::disconnect) are left pending and NetcodeServerTransport::disconnect_all is called in the same frame; the netcode layer must be empty at once, every session gets its ClientDisconnected and every client ends. At the end of every run the last event per id must agree with both layers. A third of the runs also have a HOST PLAYER: a local client of the same RenetServer (new_local_client, pumped with process_local_client every tick after the transport's send_packets) exchanging ordered messages with the server; it has no netcode session (excluded from the lock-step comparison), must never be reported disconnected, and its ordered streams must be complete and in order at the end of the run. One run in 16 is a VANISHED-SERVER run instead: one client (its UDP socket connected to the server's address in 2 of 3 runs) and a server transport, direct; after some traffic the server transport is dropped (socket closed) and the client, still being updated and still sending, must be disconnected within timeout + 1 s of virtual time. During the fault phase the client limit is changed at run time now and then (set_max_clients(1..8), also below the number connected): the lock-step comparison must keep holding, nobody loses a session for it. A quarter of the runs with two or more clients are CROWDED: one slot too few at first, so somebody is denied; the relay holds half of the ConnectionDenied datagrams back, the server application frees a slot at tick 10, and a client that got in afterwards is shown its stale denial, which must not end its session. One run in 20 is a TWO-SERVERS run: a token lists two servers sharing the private key on one host; the first (behind a relay socket) accepts the client and streams, but everything after its challenge is held back; the client fails over to the second server; then the held datagrams of the first are delivered from the first address: the client application must obtain only what the second server submitted.",
+    rule: "one evaluation = one session of the real NetcodeServerTransport and 1-5 NetcodeClientTransports over 127.0.0.1 UDP sockets, single-threaded with virtual durations, through an in-path relay (one front socket the clients believe is the server, one back socket per client) that applies a seeded schedule to the real datagrams: drop, duplicate, delay / reorder, replay of old datagrams, bit corruption; applications submit messages on all three channel kinds both ways, disconnect from either side / either layer at seeded ticks, and reconnect with the same client id; secure and unsecure authentication; in a third of the secure runs the connect tokens live 2-8 s only, so sessions outlive the token they were established with (a client whose token ran out before it connected is owed nothing). Oracles: right after every NetcodeServerTransport::update the server has no disconnected-but-present connection, the message layer's connected ids equal the ids the transport has an address for, and both counts agree; ServerEvents per id alternate Connected/Disconnected starting with Connected; every application- or peer-initiated disconnect is visible on the other side within timeout + 1 s of virtual time; every obtained message is a byte-identical submission of the same client / channel, in order on ordered channels and at most once on reliable ones; in interference-only runs (every timeout window sees a genuine datagram delivered each way) no session ends unless an application asked for it; every datagram seen by the relay is <= 1400 bytes. Non-trivial = the relay interfered (drop/dup/delay/replay/corrupt) AND at least one client connected AND at least one disconnect was propagated; distinct = fingerprints of the session history (connects, disconnects, message counts). Half of the same-id reconnects of secure runs reach the server from the SAME address as the previous session (the relay keeps its socket: a NAT mapping that is still there), and the relay replays the recorded connection request of the previous token (still valid, sealed for this server) into the new session up to three times: it is not this session's business and ends nothing. In a fifth of the hostile runs one client is HASTY: the relay holds its Response datagrams back, its application disconnects as soon as one has left, and the relay releases the responses together with the Disconnect datagram - the server sees the completed handshake and its end within one transport update and must report ClientConnected before ClientDisconnected. In half of the clean-relay runs one client (with an id of its own) is MUTED: the relay drops every server-to-client session datagram for it, so the server holds its session while the client is still answering the challenge; its application then disconnects (client or transport API) and the server side must be gone within 6 ticks. A quarter of the runs end their fault phase with a SERVER SHUTDOWN: 0-2 message-layer kicks (RenetServer::disconnect) are left pending and NetcodeServerTransport::disconnect_all is called in the same frame; the netcode layer must be empty at once, every session gets its ClientDisconnected and every client ends. At the end of every run the last event per id must agree with both layers. A third of the runs also have a HOST PLAYER: a local client of the same RenetServer (new_local_client, pumped with process_local_client every tick after the transport's send_packets) exchanging ordered messages with the server; it has no netcode session (excluded from the lock-step comparison), must never be reported disconnected, and its ordered streams must be complete and in order at the end of the run. One run in 16 is a VANISHED-SERVER run instead: one client (its UDP socket connected to the server's address in 2 of 3 runs) and a server transport, direct; after some traffic the server transport is dropped (socket closed) and the client, still being updated and still sending, must be disconnected within timeout + 1 s of virtual time. During the fault phase the client limit is changed at run time now and then (set_max_clients(1..8), also below the number connected): the lock-step comparison must keep holding, nobody loses a session for it. A quarter of the runs with two or more clients are CROWDED: one slot too few at first, so somebody is denied; the relay holds half of the ConnectionDenied datagrams back, the server application frees a slot at tick 10, and a client that got in afterwards is shown its stale denial, which must not end its session. One run in 20 is a TWO-SERVERS run: a token lists two servers sharing the private key on one host; the first (behind a relay socket) accepts the client and streams, but everything after its challenge is held back; the client fails over to the second server; then the held datagrams of the first are delivered from the first address: the client application must obtain only what the second server submitted.",
     assumptions: &[
         "single-threaded endpoints, loopback delivery is effectively synchronous; a datagram the relay misses arrives one tick later (a legal delay)",
         "bounds are on virtual time (durations passed to update), never wall-clock",
@@ -90,6 +90,12 @@ struct Peer {
     addr: SocketAddr,
     back: UdpSocket,
     generation: u32,
+    /// the first connection request this client sent (recorded by the relay)
+    first_request: Option<Vec<u8>>,
+    /// the recorded request of the previous generation, which reached the server from the same relay socket (the same
+    /// peer address: a reconnect through the same NAT mapping) with another, still valid token
+    prev_request: Option<Vec<u8>>,
+    prev_request_replays: u32,
     /// application-level state
     app_closed: bool,
     closed_at_ms: Option<u64>,
@@ -213,6 +219,9 @@ impl World {
             addr,
             back,
             generation,
+            first_request: None,
+            prev_request: None,
+            prev_request_replays: 0,
             app_closed: false,
             closed_at_ms: None,
             closed_by: "",
@@ -685,8 +694,15 @@ fn one_run_inner(ctx: &Ctx, out: &mut Outcome, run_seed: u64) {
                         match w.new_peer(&mut r, id, g) {
                             Ok(p) => {
                                 w.log(format!("reconnect id {} generation {}", id, g));
-                                w.peers[k] = p;
+                                let old = std::mem::replace(&mut w.peers[k], p);
                                 out.count("reconnect_same_id");
+                                // in half of the reconnects the new client reaches the server from the same address as the
+                                // old one (the relay keeps its socket: a NAT mapping that is still there)
+                                if w.secure && r.chance(1, 2) {
+                                    w.peers[k].back = old.back;
+                                    w.peers[k].prev_request = old.first_request;
+                                    out.count("reconnect_same_id_from_the_same_address");
+                                }
                             }
                             Err(e) => {
                                 out.inconclusive(&format!("C20: reconnect: {e}"));
@@ -742,6 +758,18 @@ fn one_run_inner(ctx: &Ctx, out: &mut Outcome, run_seed: u64) {
                     continue;
                 }
                 let connected_both = w.peers[k].client.is_connected() && w.server.is_connected(id);
+                // an on-path party replays the connection request of the previous session's token (still valid, sealed
+                // for this server, sent from this very address) while the new session is up: it is not this session's
+                // business and ends nothing
+                if connected_both && w.peers[k].prev_request.is_some() && w.peers[k].prev_request_replays < 3 && r.chance(1, 15) {
+                    let b = w.peers[k].prev_request.clone().unwrap();
+                    w.peers[k].prev_request_replays += 1;
+                    let g = w.peers[k].generation;
+                    w.flight.push(InFlight { at: w.tick, to_server: true, peer: k, generation: g, bytes: b, genuine: false });
+                    out.count("stale_request_of_previous_token_replayed_into_the_new_session");
+                    w.log(format!("relay replays the connection request of id {}'s previous token from the same address", id));
+                    relay_acted = true;
+                }
                 // the server application starts sending as soon as it holds the session (ClientConnected), which may be
                 // before the client has seen the keep-alive that completes its handshake
                 let holds_session = w.server.is_connected(id) && w.st.client_addr(id).is_some() && w.st.client_addr(id) == w.peers[k].back.local_addr().ok();
@@ -1382,6 +1410,9 @@ fn relay_in(w: &mut World, r: &mut Rng, cfg: &RelayCfg, faults_on: bool, to_serv
     if !to_server && w.muted == Some(peer) && generation == 0 && !bytes.is_empty() && (bytes[0] & 0xF) >= 4 {
         out.count("relay_muted_session_datagram");
         return;
+    }
+    if to_server && !bytes.is_empty() && (bytes[0] & 0xF) == 0 && w.peers[peer].first_request.is_none() {
+        w.peers[peer].first_request = Some(bytes.to_vec());
     }
     if to_server && w.hasty == Some(peer) && generation == 0 && !bytes.is_empty() {
         match bytes[0] & 0xF {
